@@ -23,11 +23,13 @@ PROPS = {
             _c02("TestC20Loop", "c20", (2, 3), (3, 120)),
             _c02("TestC18", "c18", (2, 6), (3, 300)),
             _c02("TestC02Params", "props", (3, 25), (4, 2500)),
+            _c02("TestC02Slash", "props", (3, 25), (4, 2500)),
         ],
         rule="union profile: the histories generated for C01, C03 (corrupted signature shares), C07, C08, C10, C14, C15, C17 and C20 (valid and "
              "invalid messages of oracle, tss, bandtss, feeds, tunnel, restake with boundary and adversarial field values, dt from 0 to minutes) "
              "plus a parameter stage (every custom module's parameters drawn from edge values accepted by Params.Validate: percentages 0/100, quorum 0/1, "
-             "periods 1/2^63/2^64-1, zero and huge limits, with and without price reporters) are executed on 3 replicas of the real application (separate DB, home dir and VM) in one process; non-trivial = successful "
+             "periods 1/2^63/2^64-1, zero and huge limits, with and without price reporters) and a slashing stage (delegate / redelegate / undelegate / "
+             "restake / feeds votes with locks at full, half or full+1 power, then blocks carrying double-sign evidence with infraction heights 1-8 blocks back) are executed on 3 replicas of the real application (separate DB, home dir and VM) in one process; non-trivial = successful "
              "transactions of >=2 of the custom modules AND >=1 end block that did cross-module work (resolve, aggregate/fail/assign signing, "
              "tunnel packet, price update, penalty, transition) AND replicas compared on every block; distinct = hash of case JSON",
         explanation="totality: FinalizeBlock of every replica must return without error or panic for every generated block; determinism: after every "
